@@ -17,9 +17,15 @@ import SqiProofs.C17.Div
 import SqiProofs.C17.Gcd
 import SqiProofs.C17.Sqrt3
 import SqiProofs.C17.Rand
+import SqiProofs.C17.RandCover
 import SqiProofs.C17.Cornacchia
 import SqiProofs.C17.Conv
 import SqiProofs.C17.Kernel
+import SqiProofs.C17.Kernel2
+import SqiProofs.C17.RepInt
+import SqiProofs.C17.CornComplete
+import SqiProofs.C17.CornGeneral
+import SqiProofs.C17.Unit
 import SqiProofs.Primes
 
 namespace SqiProps.C17
@@ -332,6 +338,14 @@ theorem rand_interval_mask_value : ∀ k : Nat, k < 64 →
 example : ibzRandInterval 0 (2 ^ 64 - 1) [1, 2, 3, 4, 5, 6, 7, 8] = .ok (0x0807060504030201, []) ∧
     (randParams 0 (2 ^ 64 - 1)).lenBits % 64 = 0 := by decide
 
+/-- the mask is wide enough: EVERY value of [a, b] is produced by some byte stream (the little-endian bytes of t = r − a),
+    for every interval a ≤ b incl. widths whose bit length is a multiple of 64 — together with `rand_interval_range` the set
+    of possible outputs is exactly [a, b] -/
+theorem rand_interval_reaches_all (a b : Int) (t : Nat) (ht : (t : Int) ≤ b - a) :
+    ibzRandInterval a b (toBytesLE (randParams a b).lenBytes t) = .ok (a + t, []) :=
+  randInterval_reaches a b t ht
+example : ibzRandInterval 10 (10 + 2 ^ 64) (toBytesLE 9 (2 ^ 64)) = .ok (10 + 2 ^ 64, []) := by decide +kernel
+
 /-- `ibz_rand_interval_minm_m`: result in [−m, m] (0 ≤ m < 2^62) -/
 theorem rand_interval_minm_m_range (m : Int) (hm : 0 ≤ m ∧ m < 2 ^ 62) (stream : List Nat) (r : Int) (rest : List Nat)
     (h : ibzRandIntervalMinmM m stream = .ok (r, rest)) : -m ≤ r ∧ r ≤ m := by
@@ -357,6 +371,118 @@ theorem cornacchia_prime_sound (n p x y : Int) (h : ibzCornacchiaPrime n p = .ok
   cornacchiaPrime_sound n p x y h
 example : ibzCornacchiaPrime 1 29 = .ok (5, 2) ∧ ibzCornacchiaPrime 1 2 = .ok (1, 1) ∧ ibzCornacchiaPrime 2 7 = .fail := by decide
 
+/-- COMPLETENESS of `ibz_cornacchia_prime` for n = 1 — the only value `ibz_cornacchia_extended` and `represent_integer*`
+    ever pass: for EVERY prime p that is a sum of two squares (p = 2 or p ≡ 1 mod 4) the routine returns x, y with
+    x² + y² = p.  No existence hypothesis is needed: the Euclidean-descent invariant (a·u_b + b·u_a = p,
+    p | a² + u_a², p | b² + u_b², p | ab − u_a u_b) shows that the first remainder below √p gives a representation — a
+    constructive proof of Fermat's two-square theorem on the model of the C code.
+    (General n: `cornacchia_prime_complete` below.) -/
+theorem cornacchia_prime_complete_n1 (pn : Nat) (hp : pn.Prime) (h4 : pn = 2 ∨ pn % 4 = 1) :
+    ∃ x y : Int, ibzCornacchiaPrime 1 pn = .ok (x, y) ∧ x * x + y * y = pn := by
+  rcases h4 with h2 | h4
+  · subst h2; exact ⟨1, 1, by decide, by decide⟩
+  · haveI := Fact.mk hp
+    have hsq : IsSquare (((0 - 1 : Int)) : ZMod pn) := by
+      have : IsSquare (-1 : ZMod pn) := ZMod.exists_sq_eq_neg_one_iff.mpr (by omega)
+      simpa using this
+    obtain ⟨r, hr⟩ := sqrt_mod_p_complete pn hp (0 - 1) hsq
+    obtain ⟨hr0, hrp, hrr⟩ := sqrt_mod_p_sound pn hp (0 - 1) r hr
+    have hppos : (0 : Int) < pn := by have := hp.pos; omega
+    have hdvd : (pn : Int) ∣ r * r + 1 * 1 := by
+      have := Int.dvd_of_emod_eq_zero hrr
+      have e : r * r - (0 - 1) = r * r + 1 * 1 := by ring
+      rwa [e] at this
+    obtain ⟨c, u, hloop, hc0, hu0, hcu⟩ := cornLoop_descent (pn : Int) hppos ((pn : Int).natAbs + 2) r pn 1 0
+      hr0 hppos (by omega) (le_refl _) (by simp) hdvd ⟨(pn : Int), by ring⟩ ⟨r, by ring⟩ (by ring)
+      (by have := hp.one_le; nlinarith)
+    refine ⟨c, u, ?_, hcu⟩
+    unfold ibzCornacchiaPrime
+    have hne : ((pn : Int) = 2) = False := by simp; omega
+    simp only [hne, if_false, hr, hloop]
+    exact cornFinish_one _ _ _ hu0 hcu
+example : ibzCornacchiaPrime 1 13 = .ok (3, 2) ∧ ibzCornacchiaPrime 1 97 = .ok (9, 4) ∧ Nat.Prime 97 := by decide
+
+/-- COMPLETENESS of `ibz_cornacchia_prime` for EVERY n ≥ 1 and every odd prime p (Cornacchia's theorem on the model of the C):
+    if x² + n·y² = p has a solution with x ≠ 0 (equivalently gcd(n, p) = 1) then the routine returns a solution.
+    Proof: lattice of the root r returned by `ibz_sqrt_mod_p`, Euclidean-descent invariants with cofactors
+    (a·u_b + b·u_a = p, a ≡ ε u_a r, b ≡ −ε u_b r), Lagrange identity (c² + n u²)(x0² + n y0²) = E² + n D² at the first
+    remainder below √p, and a case analysis (parallel vectors ⇒ same solution; transversal case impossible for n ≥ 2). -/
+theorem cornacchia_prime_complete (pn : Nat) (hp : pn.Prime) (hp2 : pn ≠ 2) (n x0 y0 : Int) (hn : 1 ≤ n) (hx0 : x0 ≠ 0)
+    (hsol : x0 * x0 + n * (y0 * y0) = pn) :
+    ∃ x y : Int, ibzCornacchiaPrime n pn = .ok (x, y) ∧ x * x + n * (y * y) = pn := by
+  haveI := Fact.mk hp
+  -- WLOG x0 ≥ 1
+  obtain ⟨X, hX1, hXsol⟩ : ∃ X : Int, 1 ≤ X ∧ X * X + n * (y0 * y0) = pn := by
+    refine ⟨(x0.natAbs : Int), by have := Int.natAbs_pos.mpr hx0; omega, ?_⟩
+    rw [← Int.natCast_mul, Int.natAbs_mul_self]; exact hsol
+  have hppos : (0 : Int) < pn := by have := hp.pos; omega
+  have hpI : (pn : Int) ≠ 0 := by omega
+  -- −n is a square modulo p
+  have hcop := coprime_of_sol pn hp n X y0 hX1 hXsol hn
+  have hy0F : ((y0 : Int) : ZMod pn) ≠ 0 := by
+    intro h0
+    have hpy : (pn : Int) ∣ y0 := (ZMod.intCast_zmod_eq_zero_iff_dvd y0 pn).mp h0
+    have hpx : (pn : Int) ∣ X * X := by
+      have : X * X = pn - n * (y0 * y0) := by omega
+      rw [this]; exact Int.dvd_sub (dvd_refl _) (Dvd.dvd.mul_left (Dvd.dvd.mul_right hpy _) _)
+    have hpX : (pn : Int) ∣ X := by
+      rcases (Nat.prime_iff_prime_int.mp hp).dvd_or_dvd hpx with h | h <;> exact h
+    have h1 : (pn : Int) ∣ 1 := hcop.isUnit_of_dvd' hpX (Dvd.dvd.mul_left hpy _) |>.dvd
+    have := Int.le_of_dvd (by omega) h1
+    have := hp.two_le; omega
+  have hF : ((X : Int) : ZMod pn) * X + n * ((y0 : ZMod pn) * y0) = 0 := by
+    have := congrArg (fun z : Int => (z : ZMod pn)) hXsol
+    simpa using this
+  have hsq : IsSquare (((0 - n : Int)) : ZMod pn) := by
+    refine ⟨(X : ZMod pn) * (y0 : ZMod pn)⁻¹, ?_⟩
+    push_cast
+    field_simp
+    linear_combination -hF
+  obtain ⟨r, hr⟩ := sqrt_mod_p_complete pn hp (0 - n) hsq
+  obtain ⟨hr0, hrp, hrr⟩ := sqrt_mod_p_sound pn hp (0 - n) r hr
+  have hrn : (pn : Int) ∣ r * r + n := by
+    have := Int.dvd_of_emod_eq_zero hrr
+    have e : r * r - (0 - n) = r * r + n := by ring
+    rwa [e] at this
+  -- the solution lies in the lattice of r (up to the sign of y0)
+  obtain ⟨y1, hy1sol, hy1lat⟩ : ∃ y1 : Int, X * X + n * (y1 * y1) = pn ∧ (pn : Int) ∣ X - r * y1 := by
+    rcases sol_in_lattice pn hp n r X y0 hXsol hrn with h | h
+    · exact ⟨y0, hXsol, h⟩
+    · exact ⟨-y0, by rw [← hXsol]; ring, h⟩
+  -- run the loop
+  have hloop : ∃ c u : Int, cornLoop pn ((pn : Int).natAbs + 2) r pn = .ok (c, c * c) ∧ 0 ≤ c ∧ 0 ≤ u ∧
+      c * c + n * (u * u) = pn := by
+    rw [Int.natAbs_natCast]
+    show ∃ c u : Int, cornLoop pn ((pn + 1) + 1) r pn = .ok (c, c * c) ∧ 0 ≤ c ∧ 0 ≤ u ∧ c * c + n * (u * u) = pn
+    unfold cornLoop
+    simp only [hpI, if_false]
+    rw [Int.tmod_eq_emod_of_nonneg hr0, Int.emod_eq_of_lt hr0 hrp]
+    by_cases hge : r * r ≥ (pn : Int)
+    · simp only [hge, if_true]
+      have hrpos : 0 < r := by
+        rcases lt_or_ge 0 r with h | h
+        · exact h
+        · have : r = 0 := by omega
+          rw [this] at hge; omega
+      exact cornLoop_descent_n pn hp n r X y1 hn hX1 hy1sol hrn hy1lat (pn + 1) pn r 0 1 (-1) hrpos hrp (le_refl _)
+        (by omega) (by omega) (by ring) ⟨1, by ring⟩ ⟨0, by ring⟩ (by ring) hge
+    · simp only [hge, if_false]
+      refine ⟨r, 1, rfl, hr0, by omega, ?_⟩
+      have := corn_final pn hp n r 1 pn 0 X y1 r 1 hn hX1 hy1sol hrn (by ring) ⟨0, by ring⟩
+        (by have e : X - 1 * r * y1 = X - r * y1 := by ring
+            rw [e]; exact hy1lat)
+        hr0 (by omega) (by omega) (le_refl _) (by omega) hrp
+        (by have := hp.two_le; nlinarith) (by ring)
+      linear_combination this
+  obtain ⟨c, u, hl, hc0, hu0, hcu⟩ := hloop
+  refine ⟨c, u, ?_, hcu⟩
+  unfold ibzCornacchiaPrime
+  have hne : ((pn : Int) = 2) = False := by simp; omega
+  simp only [hne, if_false, hr, hl]
+  exact cornFinish_n n pn c u hn hu0 hcu
+example : ibzCornacchiaPrime 2 11 = .ok (3, 1) ∧ ibzCornacchiaPrime 7 43 = .ok (6, 1) ∧
+    (3 : Int) * 3 + 2 * (1 * 1) = 11 ∧ Nat.Prime 43 := by decide
+
 /-- `ibz_cornacchia_special_prime` (x² + n·y² = 2^e·p), repaired code: never a false solution under the documented
     contract n ≡ 3 (mod 4) alone — no coprimality side condition any more (p | n now reports failure). -/
 theorem cornacchia_special_prime_sound (n p : Int) (e : Nat) (x y : Int) (hn : n % 4 = 3)
@@ -372,6 +498,53 @@ theorem cornacchia_extended_sound (isPP : Int → Bool) (n : Int) (primes : List
     (h : ibzCornacchiaExtended isPP n primes bad = .ok (x, y)) : x * x + y * y = n :=
   cornacchiaExtended_sound isPP n primes bad x y B hB1 hB hn h
 example : ibzCornacchiaExtended probabPrime 725 [2, 5, 13] none = .ok (7, 26) ∧ (725 : Int).natAbs < 2 ^ 10 := by decide +kernel
+
+/-- the recombination loop of `ibz_cornacchia_extended` cannot fail when every listed prime that was stripped with a non-zero
+    valuation is a prime that is a sum of two squares (2 or ≡ 1 mod 4) -/
+theorem apply_primes_complete : ∀ (primes : List Int) (vals : List Nat) (xy : Int × Int),
+    (∀ p v, (p, v) ∈ primes.zip vals → v ≠ 0 → ∃ pn : Nat, p = pn ∧ pn.Prime ∧ (pn = 2 ∨ pn % 4 = 1)) →
+    ∃ xy', applyPrimes primes vals xy = .ok xy' := by
+  intro primes
+  induction primes with
+  | nil => intro vals xy _; exact ⟨xy, by simp [applyPrimes]⟩
+  | cons p ps ih =>
+    intro vals xy h
+    cases vals with
+    | nil => exact ⟨xy, by simp [applyPrimes]⟩
+    | cons v vs =>
+      have hrest : ∀ p' v', (p', v') ∈ ps.zip vs → v' ≠ 0 → ∃ pn : Nat, p' = pn ∧ pn.Prime ∧ (pn = 2 ∨ pn % 4 = 1) :=
+        fun p' v' hm hv => h p' v' (by simp [List.zip_cons_cons, hm]) hv
+      unfold applyPrimes
+      by_cases hv : v = 0
+      · simp only [hv, ne_eq, not_true_eq_false, if_false]; exact ih vs xy hrest
+      · simp only [ne_eq, hv, not_false_eq_true, if_true]
+        obtain ⟨pn, rfl, hpp, hp4⟩ := h p v (by simp [List.zip_cons_cons]) hv
+        obtain ⟨x, y, hc, _⟩ := cornacchia_prime_complete_n1 pn hpp hp4
+        simp only [extPrimeLoop, hc]
+        exact ih vs _ hrest
+
+/-- COMPLETENESS of `ibz_cornacchia_extended` relative to its trial-division stage: if after stripping the listed primes the
+    cofactor `nodd` is 1 or a prime ≡ 1 (mod 4) that the primality oracle accepts, `bad_primes_prod` is coprime to n, and every
+    stripped prime with non-zero valuation is 2 or ≡ 1 (mod 4), then a representation is returned (and by
+    `cornacchia_extended_sound` it is one of n) -/
+theorem cornacchia_extended_complete (isPP : Int → Bool) (n : Int) (primes : List Int) (bad : Option Int)
+    (nodd : Int) (vals : List Nat) (hbad : badPrimesHit n bad = false)
+    (hstrip : stripPrimes primes true n = .ok (nodd, vals))
+    (hnodd : nodd = 1 ∨ ∃ qn : Nat, nodd = qn ∧ qn.Prime ∧ qn % 4 = 1 ∧ isPP nodd = true)
+    (hlist : ∀ p v, (p, v) ∈ primes.zip vals → v ≠ 0 → ∃ pn : Nat, p = pn ∧ pn.Prime ∧ (pn = 2 ∨ pn % 4 = 1)) :
+    ∃ xy, ibzCornacchiaExtended isPP n primes bad = .ok xy := by
+  unfold ibzCornacchiaExtended
+  simp only [hbad, Bool.false_eq_true, if_false, hstrip]
+  rcases hnodd with h1 | ⟨qn, hq, hqp, hq4, hpp⟩
+  · subst h1
+    simp only [show ((1 : Int) % 4 ≠ 1) = False by decide, if_false, or_true, not_true_eq_false, if_true]
+    exact apply_primes_complete primes vals (1, 0) hlist
+  · have hmod : ¬ (nodd % 4 ≠ 1) := by rw [hq]; omega
+    have hne1 : nodd ≠ 1 := by rw [hq]; have := hqp.two_le; omega
+    simp only [hmod, if_false, hpp, true_or, not_true_eq_false, hne1]
+    obtain ⟨x, y, hc, _⟩ := cornacchia_prime_complete_n1 qn hqp (Or.inr hq4)
+    rw [hq, hc]
+    exact apply_primes_complete primes vals (x, y) hlist
 
 /-- integer core of one trial of `represent_integer` / `represent_integer_non_diag`:
     x² + y² + p·(z² + t²) = 4·n_gamma -/
@@ -391,6 +564,53 @@ theorem represent_integer_trial_sound (isPP : Int → Bool) (nGamma p z t : Int)
     linear_combination this
   · exact absurd h (by simp)
   · exact absurd h (by simp)
+
+/-- contract of `ibz_rand_interval`: for an EMPTY interval (b < a) the rejection loop never accepts — on every byte
+    stream the model consumes the whole stream and ends in the "randombytes failed" exit; with an inexhaustible
+    generator the C does not terminate.  (This is what makes `represent_integer*` spin for targets with 4n < p.) -/
+theorem rand_interval_empty_never_returns (a b : Int) (h : b < a) (stream : List Nat) :
+    ibzRandInterval a b stream = .fail := by
+  cases hr : ibzRandInterval a b stream with
+  | ok v => obtain ⟨r, rest⟩ := v; have := rand_interval_range_c a b stream r rest hr; omega
+  | fail => rfl
+  | ub => exact absurd hr (rand_interval_never_ub a b stream)
+
+/-- `represent_integer` / `represent_integer_non_diag` (whole function, integer level; model tied to the real functions
+    over a byte stream): every returned element γ = (c0 + c1·i + c2·j + c3·k)/2 lies in the standard maximal order
+    (c0 ≡ c3, c1 ≡ c2 mod 2), has reduced norm exactly the returned n_gamma, and n_gamma is the target divided by a
+    square — for every target n ≥ 0 (|4n| < 2^B, B ≤ 2^63), every p ≡ 3 (mod 4), every byte stream, every trial budget,
+    every primality oracle, both variants. -/
+theorem represent_integer_sound (isPP : Int → Bool) (nd : Bool) (trials : Nat) (n p : Int) (stream : List Nat)
+    (o : RIOut) (rest : List Nat) (hp : 0 < p) (hp4 : p % 4 = 3) (hn : 0 ≤ n)
+    (B : Nat) (hB1 : 1 ≤ B) (hB : B ≤ 2 ^ 63) (hsize : (n * 2 * 2).natAbs < 2 ^ B)
+    (h : representInteger isPP nd trials n p stream = .ok (o, rest)) :
+    ∃ c0 c1 c2 c3 k : Int, o.coord = [c0, c1, c2, c3] ∧ o.denom = 2 ∧
+      4 * o.nOut = c0 * c0 + c1 * c1 + p * (c2 * c2 + c3 * c3) ∧ n = o.nOut * (k * k) ∧
+      (c0 - c3) % 2 = 0 ∧ (c1 - c2) % 2 = 0 :=
+  representInteger_sound isPP nd trials n p stream o rest hp hp4 hn B hB1 hB hsize h
+example : representInteger probabPrime false 40 18 11 [0x69, 0xf0, 0xba, 0x9e, 0x0c, 0xcf] =
+    Res.ok (⟨18, [4, 1, 1, -2], 2⟩, []) ∧ (11 : Int) % 4 = 3 := by decide +kernel
+
+/-- CONTRACT of `represent_integer*` (undocumented in klpt.h): the target must satisfy 4·n_gamma ≥ p.  For 0 ≤ 4n < p the
+    first sampling interval [1, ⌊√(4n/p)⌋] = [1, 0] is empty, so no representation is ever returned: the model ends in the
+    "randomness exhausted" outcome on every stream (the real function spins inside `ibz_rand_interval`; observed with a
+    5 s alarm for n = 2^200 + 1 at level 1).  Every caller in the library passes n_gamma ≥ 2^15·p. -/
+theorem represent_integer_small_target_never_returns (isPP : Int → Bool) (nd : Bool) (trials : Nat) (n p : Int)
+    (stream : List Nat) (h0 : 0 ≤ n) (hlt : n * 2 * 2 < p) :
+    ∀ r, representInteger isPP nd trials n p stream ≠ .ok r := by
+  intro r h
+  unfold representInteger at h
+  simp only at h
+  have hq : (n * 2 * 2).tdiv p = 0 := Int.tdiv_eq_zero_of_lt (by omega) hlt
+  rw [hq] at h
+  have hb : ((isqrt (0 : Int).toNat : Nat) : Int) = 0 := by decide
+  rw [hb] at h
+  cases trials with
+  | zero => simp [riLoop] at h
+  | succ k =>
+    unfold riLoop at h
+    rw [rand_interval_empty_never_returns 1 0 (by omega) stream] at h
+    simp at h
 
 /-! ## 7. `ibz_get` and `two_adic_valuation(ibz_get(x))` -/
 
@@ -433,6 +653,28 @@ theorem two_adic_valuation_spec_partial (x : Int) (h : x % 2 ^ 32 ≠ 0) :
       apply Int.eq_of_mul_eq_mul_left h2t
       linear_combination hm
     omega
+/-- `ibz_two_adic` (the big-integer replacement used by keygen/sign since fix b69f2a3): the exact 2-adic valuation
+    of EVERY non-zero integer (any sign, any size), and 0 for x = 0 -/
+theorem ibz_two_adic_spec (x : Int) :
+    (x ≠ 0 → (2 : Int) ^ ibzTwoAdic x ∣ x ∧ ¬ (2 : Int) ^ (ibzTwoAdic x + 1) ∣ x) ∧ (x = 0 → ibzTwoAdic x = 0) := by
+  refine ⟨fun hx => ?_, fun hx => by simp [ibzTwoAdic, hx]⟩
+  unfold ibzTwoAdic
+  rw [if_neg hx]
+  have hpos : 0 < x.natAbs := Int.natAbs_pos.mpr hx
+  obtain ⟨h1, h2, _⟩ := trailingZeros_spec' x.natAbs x.natAbs hpos Nat.lt_two_pow_self
+  generalize trailingZeros x.natAbs x.natAbs = t at h1 h2
+  constructor
+  · rw [← Int.dvd_natAbs]
+    exact_mod_cast (Dvd.intro_left _ h1.symm)
+  · intro hd
+    rw [← Int.dvd_natAbs] at hd
+    have hd' : 2 ^ (t + 1) ∣ x.natAbs := by exact_mod_cast hd
+    rw [h1, Nat.pow_succ, Nat.mul_comm (2 ^ t) 2] at hd'
+    have h2t : 0 < 2 ^ t := Nat.two_pow_pos t
+    have := Nat.dvd_of_mul_dvd_mul_right h2t hd'
+    omega
+example : ibzTwoAdic (2 ^ 32) = 32 ∧ ibzTwoAdic (-(3 * 2 ^ 100)) = 100 ∧ ibzTwoAdic 0 = 0 ∧ ibzTwoAdic 7 = 0 := by decide +kernel
+
 /-- NEGATION of the full statement (finding, feeds C04): when 2^32 | x the result is 0, e.g. x = 2^32 -/
 theorem two_adic_valuation_truncates (x : Int) (h : x % 2 ^ 32 = 0) : twoAdicValuationOfIbz x = 0 := by
   rw [twoAdicValuationOfIbz_eq, if_pos h]
@@ -444,10 +686,14 @@ example : twoAdicValuationOfIbz (2 ^ 32) = 0 ∧ (2 : Int) ^ 32 ∣ 2 ^ 32 ∧ t
 kernel of dimension exactly 1.  Proved (for EVERY prime p, EVERY integer matrix, generic in rows × cols):
 whenever a vector is returned it is non-zero modulo p and M·v ≡ 0 (mod p) — invariant of the elimination
 (kernel inclusion, pivot columns, pivot-free rows), by induction over the columns.
-NOT proved (partial): "dimension-1 kernel ⇒ a vector is returned" (completeness) and absence of the `ub` outcome
-(pivot always invertible) — both are checked by the correspondence run against an independent rank computation.
-The Howell-form routine `ibz_4x4_right_ker_mod_power_of_2` (matkermod.c) has no model and no theorem: oracle-tested
-only (see notes/C17.md). -/
+Also proved (this round): the routine never takes the `ub` exit for a prime modulus (entries stay reduced, so every
+pivot is invertible) and COMPLETENESS — if the right kernel modulo p is a line, a vector is returned
+(`ker_mod_prime_never_ub`, `ker_mod_prime_complete`).  Together: for every prime p and every integer matrix whose kernel
+mod p is one-dimensional the routine returns a non-zero kernel vector.  (If the kernel has another dimension the routine
+returns 0 by design: it only answers for dimension exactly 1.)
+The Howell-form routine `ibz_4x4_right_ker_mod_power_of_2` (matkermod.c) has a faithful executable model
+(`SqiModel.Howell`, tied by correspondence incl. the intermediate Howell form and transformation matrix) but no
+soundness theorem of the algorithm itself: every vector it returns is certified by the proved-sound checker of §9. -/
 
 theorem ker_mod_prime_sound (pn : Nat) (hp : pn.Prime) (rows cols : Nat) (mat : Mat) (ker : List Int)
     (h : rightKerModPrime rows cols mat pn = .ok ker) :
@@ -455,6 +701,32 @@ theorem ker_mod_prime_sound (pn : Nat) (hp : pn.Prime) (rows cols : Nat) (mat : 
     ∀ i < rows, ∑ s ∈ Finset.range cols, ((get mat i s : Int) : ZMod pn) * ((ker.getD s 0 : Int) : ZMod pn) = 0 := by
   haveI := Fact.mk hp
   exact rightKerModPrime_sound pn rows cols mat ker h
+
+/-- never `ub`: for a prime modulus every pivot is invertible -/
+theorem ker_mod_prime_never_ub (pn : Nat) (hp : pn.Prime) (rows cols : Nat) (mat : Mat) :
+    rightKerModPrime rows cols mat pn ≠ .ub := by
+  haveI := Fact.mk hp
+  exact rightKerModPrime_ne_ub pn rows cols mat
+
+/-- completeness: if the right kernel of `mat` modulo p is the line spanned by a non-zero v0, a vector is returned
+    (and by `ker_mod_prime_sound` it is a non-zero kernel vector) -/
+theorem ker_mod_prime_complete (pn : Nat) (hp : pn.Prime) (rows cols : Nat) (mat : Mat) (v0 : Nat → ZMod pn)
+    (hv0 : ∃ s < cols, v0 s ≠ 0)
+    (hker0 : ∀ i < rows, ∑ s ∈ Finset.range cols, ((get mat i s : Int) : ZMod pn) * v0 s = 0)
+    (hline : ∀ v : Nat → ZMod pn, (∀ i < rows, ∑ s ∈ Finset.range cols, ((get mat i s : Int) : ZMod pn) * v s = 0) →
+      ∃ c : ZMod pn, ∀ s < cols, v s = c * v0 s) :
+    ∃ ker, rightKerModPrime rows cols mat pn = .ok ker := by
+  haveI := Fact.mk hp
+  exact rightKerModPrime_complete pn rows cols mat v0 hv0 hker0 hline
+
+/-- converse: when a vector is returned, EVERY kernel vector modulo p is a multiple of it — so the routine returns 1
+    exactly when the kernel modulo p is one-dimensional, and then a generator of it -/
+theorem ker_mod_prime_spans (pn : Nat) (hp : pn.Prime) (rows cols : Nat) (mat : Mat) (ker : List Int)
+    (h : rightKerModPrime rows cols mat pn = .ok ker) (v : Nat → ZMod pn)
+    (hv : ∀ i < rows, ∑ s ∈ Finset.range cols, ((get mat i s : Int) : ZMod pn) * v s = 0) :
+    ∃ c : ZMod pn, ∀ s < cols, v s = c * ((ker.getD s 0 : Int) : ZMod pn) := by
+  haveI := Fact.mk hp
+  exact rightKerModPrime_line pn rows cols mat ker h v hv
 
 /-- the two instances used by the library -/
 theorem ker_4x4_mod_prime_sound (pn : Nat) (hp : pn.Prime) (mat : Mat) (ker : List Int)
@@ -492,5 +764,48 @@ theorem ker_pow2_check_sound (mat : Mat) (e : Nat) (v : List Int) (h : kerPow2Ch
 /-- `dotInt` is the usual dot product -/
 theorem dotInt_cons (a b : Int) (r w : List Int) : dotInt (a :: r) (b :: w) = a * b + dotInt r w := rfl
 example : kerPow2Check [[1, 2, 0, 0], [0, 0, 4, 4], [2, 4, 0, 0], [0, 0, 0, 8]] 3 [2, 7, 1, 1] = true := by decide
+
+/-- soundness of the matrix-identity checker through which every output of the real `ibz_mat_howell`
+    ([0|mat]·trans ≡ howell) and `ibz_mat_right_ker_mod` (mat·ker ≡ 0) is passed on each run (driver op `chkmul`) -/
+theorem mat_mul_check_sound (A B C : Mat) (cols : Nat) (N : Int) (h : matMulCheck A B C cols N = true) :
+    A.length = C.length ∧ ∀ i < A.length, ∀ j < cols, (dotInt (A.getD i []) (colOf B j) - get C i j) % N = 0 := by
+  simp only [matMulCheck, Bool.and_eq_true, List.all_eq_true, List.mem_range, beq_iff_eq] at h
+  exact ⟨h.1, fun i hi j hj => h.2 i hi j hj⟩
+example : matMulCheck [[1, 2], [3, 4]] [[5, 6], [7, 8]] [[19, 22], [43, 50]] 2 1000 = true ∧
+    matMulCheck [[1, 2], [3, 4]] [[5, 6], [7, 8]] [[19, 22], [43, 51]] 2 1000 = false := by decide
+
+/-! ## 10. Building blocks of the Howell form (matkermod.c) that ARE proved
+
+The Howell-form algorithm as a whole has no theorem (see the header of §8 and notes/C17.md); two of its ingredients do: -/
+
+/-- `unit` (static helper: Stabilizer/Split): for every modulus N > 0 and every x ≠ 0 the returned u is reduced, a unit
+    modulo N, and u·x ≡ gcd(x, N) (mod N); the returned gcd is gcd(x, N) -/
+theorem howell_unit_spec (x N : Int) (hN : 0 < N) (hx : x ≠ 0) :
+    (SqiModel.Howell.unit x N).1 = true ∧ (SqiModel.Howell.unit x N).2.2 = (Int.gcd x N : Int) ∧
+    0 ≤ (SqiModel.Howell.unit x N).2.1 ∧ (SqiModel.Howell.unit x N).2.1 < N ∧
+    Int.gcd (SqiModel.Howell.unit x N).2.1 N = 1 ∧
+    ((SqiModel.Howell.unit x N).2.1 * x) % N = (Int.gcd x N : Int) % N :=
+  unit_spec x N hN hx
+example : SqiModel.Howell.unit 6 12 = (true, 1, 6) ∧ SqiModel.Howell.unit 10 12 = (true, 11, 2) ∧
+    SqiModel.Howell.unit 0 12 = (false, 0, 0) := by decide
+
+/-- the 2×2 matrix [[s, u], [t, v]] that `ibz_xgcd_ann` hands to `gen_elem` is unimodular (determinant 1), so `gen_elem` applied
+    to whole columns is an invertible column operation -/
+theorem xgcd_ann_unimodular (a b : Int) (h : a ≠ 0 ∨ b ≠ 0) :
+    let r := ibzXgcdAnn a b
+    r.2.1 * r.2.2.2.2 - r.2.2.1 * r.2.2.2.1 = 1 := by
+  obtain ⟨hg, hbez, _, hs, ht⟩ := xgcd_ann_spec a b h
+  simp only at hg hbez hs ht ⊢
+  generalize ibzXgcdAnn a b = r at hg hbez hs ht
+  obtain ⟨g, s, t, u, v⟩ := r
+  simp only at hg hbez hs ht ⊢
+  have hg0 : g ≠ 0 := by
+    rw [hg]; intro h0
+    have : Int.gcd a b = 0 := by exact_mod_cast h0
+    rw [Int.gcd_eq_zero_iff] at this; omega
+  have : g * (s * v - t * u - 1) = 0 := by linear_combination v * hs - u * ht + hbez
+  rcases Int.mul_eq_zero.mp this with h1 | h1
+  · exact absurd h1 hg0
+  · omega
 
 end SqiProps.C17
